@@ -27,6 +27,9 @@ func (p *Prog) IsNewHelper(fn *ssa.Function) bool {
 	for top.Parent() != nil {
 		top = top.Parent()
 	}
+	if o := top.Origin(); o != nil && o != top {
+		top = o // an instantiation of a generic function: judged by the generic function
+	}
 	if top.Synthetic != "" && top.Name() != "init" {
 		return false
 	}
